@@ -15,6 +15,8 @@ package dawn
 //       root or below it (element-wise, filepath.Rel);
 //   escaping_path_accepted : a relative path whose plain resolution <root>/<pkgdir>/<path> lies outside the root was
 //       accepted at all;
+//   source_dependency_label_unstable : the printed label under which a sources= entry is registered and depended upon
+//       does not re-parse and print back to itself (LoadTarget would look up a different key);
 //   entry_crashes_generates / entry_crashes_sources : target() or Load panicked on the entry (an entry is either
 //       resolved inside the root or rejected with an error, never a crash).  A `begin` line is flushed before every
 //       entry, so that a crash the harness cannot recover from (a panic in a goroutine of Load, a fatal error) still
@@ -40,6 +42,8 @@ type c12site struct {
 	root string
 	fn   *starlark.Function
 	mods map[string]*c12siteMod
+	// dependency strings (printed labels, keys of the target table) recorded by the last sources= call
+	lastDeps []string
 }
 
 type c12siteMod struct {
@@ -123,6 +127,7 @@ func (s *c12site) call(pkg, param, g string) (res string, outcome string) {
 		got = f.gens
 	} else {
 		got = f.sources
+		s.lastDeps = append([]string(nil), f.deps...)
 	}
 	if len(got) != 1 {
 		return fmt.Sprintf("%d paths recorded", len(got)), "panic"
@@ -313,9 +318,34 @@ func TestVerifC12Sites(t *testing.T) {
 			}
 			all = append(all, rel)
 		}
+		seenG := map[string]bool{}
 		for _, g := range all {
+			if seenG[g] {
+				continue
+			}
+			seenG[g] = true
 			for _, pkg := range pkgs {
+				site.lastDeps = nil
 				record("site", root, pkg, g, func(param string) (string, string) { return site.call(pkg, param, g) })
+				// the source file is registered and depended upon under its PRINTED label; LoadTarget re-parses that
+				// string: it must name the same label, and print back to the same key
+				// (same eligibility as everywhere in C12: the label has a name, or no kind -- sources=["/"] yields the
+				// name-less source://, which the syntax cannot spell and the property excludes)
+				for _, dep := range site.lastDeps {
+					rt, ok := site.proj.targets[dep]
+					if !ok {
+						line("ORACLE", "source_dependency_label_unstable", c12hx(root), c12hx(pkg), c12hx(g), c12hx(dep))
+						continue
+					}
+					l := rt.target.Label()
+					if l.Name == "" && l.Kind != "" {
+						continue
+					}
+					l2, perr := label.Parse(dep)
+					if perr != nil || *l2 != *l || l2.String() != dep {
+						line("ORACLE", "source_dependency_label_unstable", c12hx(root), c12hx(pkg), c12hx(g), c12hx(dep))
+					}
+				}
 			}
 		}
 		// the same question end to end (BUILD.dawn on disk -> Load -> Target): every single-component entry from
